@@ -15,6 +15,10 @@ HARNESSES = [
   H('aggr_ints_n%d' % n, 'irc', 'harness/C01/h_aggr_int.c', tiers=('thorough',), timeout={'thorough': 1200}, defs={'NN': n, 'VSTR_CAP': 24, 'VSTREAM_CAP': 8, 'VOSTREAM_CAP': 28, 'VCONT_CAP': 4}, unwind=52,
     bounds='aggregate of %d integer elements, values -999..9999 symbolic' % n,
     samples=[{'v': 5}], out_of_claim='values beyond the range', **dict(AG, models=['lib/cmodels/cxx_rt.c', 'lib/cmodels/printf_null.c', 'lib/cmodels/sprintf_only.c'])) for n in (1,)
+] + [
+  H('aggr_ints_unset_n%d' % n, 'irc', 'harness/C01/h_aggr_int_unset.c', timeout={'quick': 900, 'thorough': 1800}, defs={'NN': n, 'VSTR_CAP': 24, 'VSTREAM_CAP': 8, 'VOSTREAM_CAP': 28, 'VCONT_CAP': 4}, unwind=52,
+    bounds='aggregate of %d integer elements, each a symbolic one-digit value or unset (symbolic mask)' % n,
+    samples=[{'d': 5, 'unset': 2}, {'d': 7, 'unset': 0}], out_of_claim='multi-digit values (aggr_ints_n1), reading back', **dict(AG, models=['lib/cmodels/cxx_rt.c', 'lib/cmodels/printf_null.c', 'lib/cmodels/sprintf_digit.c'], stubs=AG['stubs'] + ['sprintf: "%ld" of a one-digit value only (sprintf_digit.c); other values cut the path'])) for n in (2, 3)
 ]
 JOBS = 8
 MANIFEST = {
